@@ -89,7 +89,7 @@ async fn sleep(kind: Kind, d: Duration) {
 }
 
 /// `Some(output)` if `fut` finished within `d`, `None` if it was abandoned (dropped) at the deadline.
-async fn with_deadline<F: Future>(kind: Kind, d: Duration, fut: F) -> Option<F::Output> {
+pub(crate) async fn with_deadline<F: Future>(kind: Kind, d: Duration, fut: F) -> Option<F::Output> {
     let fut = core::pin::pin!(fut);
     let t = core::pin::pin!(sleep(kind, d));
     match select(fut, t).await {
@@ -231,7 +231,7 @@ fn sock_dir() -> PathBuf {
     d
 }
 
-fn run_on<F: Future>(kind: Kind, f: F) -> F::Output {
+pub(crate) fn run_on<F: Future>(kind: Kind, f: F) -> F::Output {
     match kind {
         Kind::TokioCurrent => tokio::runtime::Builder::new_current_thread().enable_all().build().unwrap().block_on(f),
         Kind::TokioMulti => tokio::runtime::Builder::new_multi_thread().worker_threads(4).enable_all().build().unwrap().block_on(f),
@@ -404,14 +404,21 @@ async fn cancel_scenario<S: Socket>(kind: Kind, mut a: Connection<S>, b: RawOrZl
         (i, len, b)
     };
     // phase 1: small messages, peer not reading (they fit into the kernel buffer)
-    let n1 = rng.range(0, 3);
+    // Some of them are sent by an impatient caller: the deadline is already due when the send is first
+    // polled (a deadline shared by a batch, a select whose other branch is ready). The socket has room, so
+    // whatever a send does before it first answers `Pending` is all that happens to that message: if it is
+    // abandoned there, the peer must still see only whole frames, each at most once.
+    let n1 = rng.range(0, 5);
     for _ in 0..n1 {
         let (i, len, bd) = msg(rng.range(1, 400), &mut id);
         let call = Call::new(Msg::Data { id: i, dir: 2, len, body: Cow::Borrowed(&bd) });
         let enc = serde_json::to_vec(&call).unwrap();
-        match with_deadline(kind, Duration::from_secs(10), a.send_call(&call)).await {
+        let impatient = rng.chance(1, 2);
+        let wait = if impatient { Duration::ZERO } else { Duration::from_secs(10) };
+        match with_deadline(kind, wait, a.send_call(&call)).await {
             Some(Ok(())) => submitted.push((enc, "ok")),
             Some(Err(e)) => return Err(format!("small send failed: {e:?}")),
+            None if impatient => submitted.push((enc, "abandoned")),
             None => return Err("small send did not complete although the kernel buffer is empty".into()),
         }
     }
